@@ -101,7 +101,7 @@ def parse_message(message, validation_level=None, find_groups=True, message_prof
         if message_profile is None:
             Validator.validate(m, report_file=report_file)
         else:
-            Validator.validate(m, message_profile[message_structure], report_file=report_file)
+            Validator.validate(m, reference, report_file=report_file)  # (the structure looked up above)
 
     return m
 
